@@ -4,11 +4,12 @@ from ..core.model import Program
 from ..core.report import CheckContext
 from ..core.resolve import Resolver
 from ..rules import coldef, order
-from .common import run_control
+from .common import run_control, generic_rules
 
 
 def analyse(ctx: CheckContext, p: Program):
     r = Resolver(p)
+    ctx.guard(generic_rules, ctx, p, r, "C14", extra_modules=())
     ctx.guard(order.check_order, ctx, p, r)
     cone = r.pipeline_cone()
     ctx.guard(order.check_config_attrs, ctx, p, r, cone if ctx.tier == "quick" else cone)
